@@ -1,5 +1,5 @@
 SPECIFICATION Spec
-CONSTANTS MaxBr = 2 MaxN = 2 CopyMode = "shallow"
+CONSTANTS MaxBr = 2 MaxN = 2 CopyMode = "hashable"
   BufSizes <- BufAll
   FillBr = 2
   ExtraBr = 2
